@@ -49,6 +49,15 @@ class _Rename(ast.NodeTransformer):
     def visit_arg(self, node):
         return node
 
+    def visit_UnaryOp(self, node):
+        self.generic_visit(node)
+        # fold the double negation that substituting a literal -1 for a parameter produces
+        if isinstance(node.op, ast.USub) and isinstance(node.operand, ast.UnaryOp) and \
+                isinstance(node.operand.op, ast.USub) and isinstance(node.operand.operand, ast.Constant) and \
+                isinstance(node.operand.operand.value, (int, float)):
+            return ast.copy_location(node.operand.operand, node)
+        return node
+
 
 def _body(fn_node):
     b = fn_node.body
@@ -95,7 +104,9 @@ class Inliner:
                 r = self.repo.resolve_name(fi.module, f.value.id)
                 if r is not None and hasattr(r, 'methods') and f.attr in r.methods:
                     h = r.methods[f.attr]
-                    return h, False if not self._has_self(h) else None
+                    # Cls._h(x, ..): a static helper, or an instance helper with the receiver
+                    # passed explicitly -- either way all parameters are bound positionally
+                    return h, False
         if isinstance(f, ast.Name) and _is_private(f.id):
             r = self.repo.resolve_name(fi.module, f.id)
             if r is not None and hasattr(r, 'params') and r.cls is None:
@@ -108,6 +119,13 @@ class Inliner:
             if isinstance(d, ast.Name) and d.id in ('staticmethod', 'classmethod'):
                 return False
         return bool(h.params) and h.params[0] == 'self'
+
+    def usable_from(self, h, fi):
+        """super() inside the helper means the helper's class: only keep that meaning when the
+        helper is inlined into a method of the same class"""
+        uses_super = any(isinstance(x, ast.Call) and isinstance(x.func, ast.Name) and x.func.id == 'super'
+                         for x in ast.walk(h.raw_node))
+        return (not uses_super) or (h.cls is not None and h.cls is fi.cls)
 
     def inlinable(self, h):
         n = h.raw_node
@@ -170,16 +188,15 @@ class Inliner:
         node = copy.deepcopy(fi.raw_node)
         changed = [False]
         node.body = self._expand_block(fi, node.body, changed)
-        if changed[0] and depth < 3:
-            # nested helpers
+        any_change = changed[0]
+        rounds = 0
+        while changed[0] and rounds < 4:        # helpers calling helpers
+            rounds += 1
+            changed = [False]
             tmp = _Fake2(fi, node)
-            node2 = copy.deepcopy(node)
-            ch2 = [False]
-            node2.body = self._expand_block(tmp, node2.body, ch2)
-            if ch2[0]:
-                node = node2
+            node.body = self._expand_block(tmp, node.body, changed)
         ast.fix_missing_locations(node)
-        return node, changed[0]
+        return node, any_change
 
     def _note(self, h, ok):
         d = self.inlined_sites if ok else self.failed_sites
@@ -214,7 +231,7 @@ class Inliner:
             hit = self.helper_for(fi, call)
             if hit is not None and hit[1] is not None:
                 h, skip_self = hit
-                if self.inlinable(h) and not self._is_expr_helper(h):
+                if self.inlinable(h) and not self._is_expr_helper(h) and self.usable_from(h, fi):
                     inst = self.instantiate(h, call, skip_self)
                     if inst is not None:
                         changed[0] = True
@@ -223,9 +240,59 @@ class Inliner:
                     self._note(h, False)
                 elif not self.inlinable(h):
                     self._note(h, False)
-        # 2. expression helpers anywhere inside the statement
+        # 2. statement helpers called inside a larger expression of a simple statement: bind the
+        #    result to a temporary first (only where the call is evaluated unconditionally)
+        if isinstance(s, (ast.Assign, ast.AugAssign, ast.AnnAssign, ast.Return, ast.Expr)):
+            pre = []
+            for c in self._unconditional_calls(s):
+                if c is call:
+                    continue
+                hit = self.helper_for(fi, c)
+                if hit is None or hit[1] is None:
+                    continue
+                h, skip_self = hit
+                if not self.inlinable(h) or self._is_expr_helper(h) or not self.usable_from(h, fi):
+                    continue
+                self.counter += 1
+                tmp = 'tmp__h%d' % self.counter
+                asg = ast.copy_location(ast.Assign(targets=[ast.Name(id=tmp, ctx=ast.Store())],
+                                                   value=copy.deepcopy(c)), s)
+                ast.fix_missing_locations(asg)
+                pre.append((c, tmp, asg))
+            if pre:
+                class _Rep(ast.NodeTransformer):
+                    def visit_Call(self_inner, node):
+                        for c, tmp, _a in pre:
+                            if node is c:
+                                return ast.copy_location(ast.Name(id=tmp, ctx=ast.Load()), node)
+                        self_inner.generic_visit(node)
+                        return node
+                s = _Rep().visit(s)
+                out = []
+                for _c, _t, asg in pre:
+                    out.extend(self._expand_stmt(fi, asg, changed))
+                out.extend(self._expand_stmt(fi, s, changed))
+                return out
+        # 3. expression helpers anywhere inside the statement
         s2 = _ExprInline(self, fi, changed).visit(s)
         return [s2]
+
+    @staticmethod
+    def _unconditional_calls(stmt):
+        """Call nodes evaluated on every execution of the simple statement (not under a lambda,
+        comprehension, conditional expression or short-circuit operator), innermost first"""
+        out = []
+
+        def rec(n):
+            if isinstance(n, (ast.Lambda, ast.ListComp, ast.SetComp, ast.DictComp, ast.GeneratorExp, ast.IfExp,
+                              ast.BoolOp)):
+                return
+            for ch in ast.iter_child_nodes(n):
+                rec(ch)
+            if isinstance(n, ast.Call):
+                out.append(n)
+        rec(stmt)
+        return out
 
     @staticmethod
     def _is_expr_helper(h):
@@ -291,7 +358,7 @@ class _ExprInline(ast.NodeTransformer):
         if hit is None or hit[1] is None:
             return node
         h, skip_self = hit
-        if not (self.inl.inlinable(h) and self.inl._is_expr_helper(h)):
+        if not (self.inl.inlinable(h) and self.inl._is_expr_helper(h) and self.inl.usable_from(h, self.fi)):
             if hit is not None:
                 self.inl._note(h, False)
             return node
@@ -325,3 +392,80 @@ class _Fake2:
         self.fq = fi.fq
         self.name = fi.name
         self.params = fi.params
+
+
+# ----------------------------------------------------------------------------- desugaring
+class _SubstName(ast.NodeTransformer):
+    def __init__(self, name, value):
+        self.name = name
+        self.value = value
+
+    def visit_Name(self, node):
+        if node.id == self.name and isinstance(node.ctx, ast.Load):
+            return ast.copy_location(copy.deepcopy(self.value), node)
+        return node
+
+
+class Desugar(ast.NodeTransformer):
+    """Reflection with literal names written out as attribute access, so that every rule sees one
+    spelling:   setattr(o, 'f', v) -> o.f = v ;  getattr(o, 'f') -> o.f ;
+    for a in ('f', 'g'): <body using a only as such a literal name>  ->  body unrolled."""
+
+    def __init__(self):
+        self.changed = False
+
+    def visit_FunctionDef(self, node):
+        self.generic_visit(node)
+        return node
+
+    def visit_For(self, node):
+        it = node.iter
+        if isinstance(node.target, ast.Name) and isinstance(it, (ast.Tuple, ast.List)) and it.elts and \
+                len(it.elts) <= 40 and not node.orelse and \
+                all(isinstance(e, ast.Constant) and isinstance(e.value, str) for e in it.elts) and \
+                not any(isinstance(x, (ast.Break, ast.Continue)) for s in node.body for x in ast.walk(s)) and \
+                any(isinstance(x, ast.Call) and isinstance(x.func, ast.Name) and x.func.id in ('setattr', 'getattr')
+                    for s in node.body for x in ast.walk(s)):
+            out = []
+            for e in it.elts:
+                for s in node.body:
+                    s2 = _SubstName(node.target.id, e).visit(copy.deepcopy(s))
+                    out.append(s2)
+            self.changed = True
+            res = []
+            for s in out:
+                r = self.visit(s)
+                res.extend(r if isinstance(r, list) else [r])
+            return res
+        self.generic_visit(node)
+        return node
+
+    def visit_Expr(self, node):
+        self.generic_visit(node)
+        c = node.value
+        if isinstance(c, ast.Call) and isinstance(c.func, ast.Name) and c.func.id == 'setattr' and \
+                len(c.args) == 3 and not c.keywords and isinstance(c.args[1], ast.Constant) and \
+                isinstance(c.args[1].value, str) and c.args[1].value.isidentifier():
+            self.changed = True
+            tgt = ast.Attribute(value=c.args[0], attr=c.args[1].value, ctx=ast.Store())
+            return ast.copy_location(ast.Assign(targets=[tgt], value=c.args[2]), node)
+        return node
+
+    def visit_Call(self, node):
+        self.generic_visit(node)
+        if isinstance(node.func, ast.Name) and node.func.id == 'getattr' and len(node.args) == 2 and \
+                not node.keywords and isinstance(node.args[1], ast.Constant) and \
+                isinstance(node.args[1].value, str) and node.args[1].value.isidentifier():
+            self.changed = True
+            return ast.copy_location(ast.Attribute(value=node.args[0], attr=node.args[1].value, ctx=ast.Load()), node)
+        return node
+
+
+def desugar(fn_node):
+    d = Desugar()
+    new = copy.deepcopy(fn_node)
+    new.body = [y for s in new.body for y in (lambda r: r if isinstance(r, list) else [r])(d.visit(s))]
+    if not d.changed:
+        return fn_node, False
+    ast.fix_missing_locations(new)
+    return new, True
